@@ -1,5 +1,5 @@
 /*VERIF
-{ "tu": "src/semaphore.c", "enforce": "_dispatch_group_wake", "props": ["C07","C17"], "seq": true, "plain": true, "timeout": 240,
+{ "tu": "src/semaphore.c", "enforce": "_dispatch_group_wake", "props": ["C07","C17","C19"], "seq": true, "plain": true, "timeout": 240,
   "bounded": {"unwind": 5, "what": "notify list of <= 3 continuations (list walk by pointer chasing has no loop contract), at most one of them not yet linked to its successor by a concurrent notifier"},
   "log_cap": 20,
   "stub_note": "_dispatch_continuation_async: logged submission; _dispatch_wake_by_address: logged; release: logged" }
